@@ -364,6 +364,11 @@ class JSONGrammar(BaseGrammar):
         if not self.__schema:
             with self.__sync_required_names():
                 self.__schema = self.__schema_builder.to_schema()
+        # The required names can be changed without resetting the cached schema.
+        if self._required_names:
+            self.__schema["required"] = sorted(self._required_names)
+        else:
+            self.__schema.pop("required", None)
         return self.__schema
 
     def _create_validator(self) -> None:
